@@ -13,7 +13,12 @@ pub fn long_game(turns: u64, seed: u64) -> (GameState, u64) {
     // the back rank cannot move yet, so let rabbits of each side step forward once where needed
     let mut rng = Rng::new(seed, "long", 0);
     let mut played = 0u64;
+    let mut iters = 0u64;
     while played < turns {
+        iters += 1;
+        if iters > turns * 8 + 64 {
+            break;
+        }
         let gold = gs.is_p1_turn_to_move();
         let acts = gs.valid_actions();
         let b = gs.piece_board();
